@@ -357,3 +357,62 @@ def sel_list(s: bytes, num: int, acc: seqbytes) -> seqbytes:
     """Fold for a repeated context-tagged component [num] collected by a skipping loop: the contents of all elements with that tag,
     in order, appended to the accumulator."""
     return acc if len(s) == 0 else sel_list(rest_of(s), num, snoc_bytes(acc, content_of(s)) if ctx_is(s, num) else acc)
+
+
+# ---- generic steps of the folds over one leading element (used to compose round trips of SEQUENCEs of optional tagged components)
+def lemma_fold_skip(e: bytes, num_e: int, content: bytes, tail: bytes, num: int, acc_none: bool, acc: bytes, acc_b: bool) -> None:
+    """A leading primitive context element [num_e] with num_e != num is skipped by the folds for [num]."""
+    lemma_tlv_roundtrip(e, 2, False, num_e, content, tail)
+    lemma_tlv_prefix(e, tail)
+    assert len(cat(e, tail)) >= 2
+    assert not ctx_is(cat(e, tail), num)
+
+
+def lemma_fold_hit(e: bytes, num: int, content: bytes, tail: bytes, acc_none: bool, acc: bytes, acc_b: bool) -> None:
+    """A leading primitive context element [num] is taken by the folds for [num]."""
+    lemma_tlv_roundtrip(e, 2, False, num, content, tail)
+    lemma_tlv_prefix(e, tail)
+    assert len(cat(e, tail)) >= 2
+    assert ctx_is(cat(e, tail), num)
+
+
+def thm_rt_ext_match(e_rule: bytes, rule_b: bytes, has_rule: bool, e_type: bytes, type_b: bytes, has_type: bool, e_val: bytes, val: bytes,
+                     e_dn: bytes, dn: bool) -> None:
+    """MatchingRuleAssertion content as the encoder lays it out - [1] rule?, [2] type?, [3] value, [4] TRUE only when dnAttributes - read
+    back by the four folds of the decoder."""
+    t3 = ite(dn, e_dn, empty())
+    t2 = cat(e_val, t3)
+    t1 = cat(ite(has_type, e_type, empty()), t2)
+    # the last element: dnAttributes
+    if dn:
+        lemma_fold_hit(e_dn, 4, seq1(255), empty(), True, empty(), False)
+        lemma_fold_skip(e_dn, 4, seq1(255), empty(), 1, True, rule_b, False)
+        lemma_fold_skip(e_dn, 4, seq1(255), empty(), 1, False, rule_b, False)
+        lemma_fold_skip(e_dn, 4, seq1(255), empty(), 2, True, type_b, False)
+        lemma_fold_skip(e_dn, 4, seq1(255), empty(), 2, False, type_b, False)
+        lemma_fold_skip(e_dn, 4, seq1(255), empty(), 3, True, val, False)
+        assert cat(e_dn, empty()) == e_dn
+    # the value
+    lemma_fold_hit(e_val, 3, val, t3, True, empty(), False)
+    lemma_fold_skip(e_val, 3, val, t3, 1, True, rule_b, False)
+    lemma_fold_skip(e_val, 3, val, t3, 1, False, rule_b, False)
+    lemma_fold_skip(e_val, 3, val, t3, 2, True, type_b, False)
+    lemma_fold_skip(e_val, 3, val, t3, 2, False, type_b, False)
+    lemma_fold_skip(e_val, 3, val, t3, 4, True, empty(), False)
+    # the type
+    if has_type:
+        lemma_fold_hit(e_type, 2, type_b, t2, True, empty(), False)
+        lemma_fold_skip(e_type, 2, type_b, t2, 1, True, rule_b, False)
+        lemma_fold_skip(e_type, 2, type_b, t2, 1, False, rule_b, False)
+        lemma_fold_skip(e_type, 2, type_b, t2, 3, True, empty(), False)
+        lemma_fold_skip(e_type, 2, type_b, t2, 4, True, empty(), False)
+    else:
+        assert cat(empty(), t2) == t2
+    # the rule
+    if has_rule:
+        lemma_fold_hit(e_rule, 1, rule_b, t1, True, empty(), False)
+        lemma_fold_skip(e_rule, 1, rule_b, t1, 2, True, empty(), False)
+        lemma_fold_skip(e_rule, 1, rule_b, t1, 3, True, empty(), False)
+        lemma_fold_skip(e_rule, 1, rule_b, t1, 4, True, empty(), False)
+    else:
+        assert cat(empty(), t1) == t1
